@@ -240,6 +240,11 @@ func (g *Gen) NextOp(prefer []string) int {
 			fmt.Sprintf("item:%d", g.r.Intn(NumItems))}
 		name = all[g.r.Intn(len(all))]
 	}
+	return g.OpOn(name)
+}
+
+// OpOn generates the next absolute write to the named cell.
+func (g *Gen) OpOn(name string) int {
 	if name == "boom" {
 		name = "n"
 	}
